@@ -1344,7 +1344,9 @@ class Engine:
         if isinstance(node, ast.Yield):
             list_append(self, y, self.eval(node.value, env) if node.value else None)
         else:
-            raise EngineError('yield from')
+            # yield from xs: the elements of xs, in order (values sent into the generator are not modelled)
+            from .builtins import list_extend
+            list_extend(self, y, self.eval(node.value, env))
 
     def exec_Return(self, node, env):
         raise _Return(self.eval(node.value, env) if node.value else None)
